@@ -1,8 +1,8 @@
 #!/bin/bash
-# usage: mut.sh <patch> <check-id>...   -- run checks against a scratch copy with the patch applied
-set -e
+# usage: [MUT_BASE=<commit>] mut.sh <patch> <check-id>...  -- run checks against a scratch copy with the patch applied
 patch=$1; shift
-cd /tmp/mut && git checkout -q -- . && git apply "$patch"
+base=${MUT_BASE:-$(git -C /repo rev-parse HEAD)}
+cd /tmp/mut && git checkout -q -- . && git checkout -q --detach $base && git apply "$patch" || { echo "PATCH DOES NOT APPLY on $base"; exit 2; }
 cd /verif
-for id in "$@"; do VERIF_REPO=/tmp/mut VERIF_BUILD=/tmp/mutbuild ./check $id 2>&1 | tail -6; done
+for id in "$@"; do VERIF_REPO=/tmp/mut VERIF_BUILD=/tmp/mutbuild ./check $id 2>&1 | grep -v "^KNOWN-FINDING" | tail -5 | cut -c1-420; done
 cd /tmp/mut && git checkout -q -- .
